@@ -32,9 +32,13 @@ func (f *File) Sync() error {
 	if err := f.File.Sync(); err != nil {
 		return err
 	}
-	new := atomic.SwapUint32(&f.new, 1)
-	if new == 0 {
-		return syncDir(f.dir)
+	if atomic.CompareAndSwapUint32(&f.new, 0, 1) {
+		if err := syncDir(f.dir); err != nil {
+			// The directory entry is still not durable so the next Sync has to try
+			// again, otherwise a retried commit would be acknowledged without it.
+			atomic.StoreUint32(&f.new, 0)
+			return err
+		}
 	}
 	return nil
 }
